@@ -143,7 +143,9 @@ func propDuring(rec *stats.Rec, sc *scratch, prop string) func(*rapid.T) {
 		}
 
 		// how the scan is started
-		how := rapid.SampledFrom([]string{"NewCache", "Configure(dirs)", "Configure(dirs) from auto"}).Draw(t, "how")
+		// "query after the directory appeared": the cache exists already (auto-refresh) while the gate directory is
+		// still missing; the directory is renamed into place and the next query adds the watch and rescans
+		how := rapid.SampledFrom([]string{"NewCache", "Configure(dirs)", "Configure(dirs) from auto", "query after the directory appeared"}).Draw(t, "how")
 		waitForInotify()
 		var cache *cdi.Cache
 		other := filepath.Join(root, "other")
@@ -153,6 +155,21 @@ func propDuring(rec *stats.Rec, sc *scratch, prop string) func(*rapid.T) {
 			cache, _ = cdi.NewCache(cdi.WithSpecDirs(other), cdi.WithAutoRefresh(false))
 		case "Configure(dirs) from auto":
 			cache, _ = cdi.NewCache(cdi.WithSpecDirs(other), cdi.WithAutoRefresh(true))
+		case "query after the directory appeared":
+			staging := filepath.Join(root, "staging")
+			if err := os.Rename(dirs[gateDir], staging); err != nil {
+				t.Fatalf("VERIF-HARNESS %v", err)
+			}
+			cache, _ = cdi.NewCache(cdi.WithSpecDirs(dirs...), cdi.WithAutoRefresh(true))
+			_ = cache.ListDevices()
+			if target == gateDir && kind != "mkdirAndFile" {
+				// the change goes into the directory that is about to appear: make it before, it is then simply content
+				change()
+				change = func() {}
+			}
+			if err := os.Rename(staging, dirs[gateDir]); err != nil {
+				t.Fatalf("VERIF-HARNESS %v", err)
+			}
 		}
 		g := &duringGate{fifo: fifo, content: gateContent, action: change, done: make(chan struct{})}
 		go g.run()
@@ -162,6 +179,8 @@ func propDuring(rec *stats.Rec, sc *scratch, prop string) func(*rapid.T) {
 			switch how {
 			case "NewCache":
 				cache, _ = cdi.NewCache(cdi.WithSpecDirs(dirs...), cdi.WithAutoRefresh(true))
+			case "query after the directory appeared":
+				_ = cache.ListDevices()
 			default:
 				_ = cache.Configure(cdi.WithSpecDirs(dirs...), cdi.WithAutoRefresh(true))
 			}
